@@ -133,6 +133,10 @@ func Blocked() int    { return 0 }
 func SchedMode(n int)     {}
 func SelectChoice(b bool) {}
 
+// RaceMonitor switches the engine's happens-before data-race monitor on or
+// off (natively a no-op: use `go test -race`).
+func RaceMonitor(on bool) {}
+
 // PanicNil reports the GODEBUG panicnil setting in force.
 func PanicNil() int { return PanicNilValue }
 
